@@ -905,7 +905,8 @@ theorem reachable_own_derived (srcs : List Reg) (strict : Bool) (f0 : Frame) (i0
 
 /-! ## writers -/
 
-/-- **CSV / Excel writers**: after any history, if the writer's consultation succeeds on a frame with rows,
+/-- **CSV writer** (names, units, display formats) and **Excel writer** (names and units only: it ignores display
+    formats): after any history, if the writer's consultation succeeds on a frame with rows,
     the name line is the frame's columns and the unit line and the format list are, position by position,
     the looked-up unit and display format of the column named at that position -/
 theorem writers_pair (f0 : Frame) (us : Option (List Str)) (um : Option (List (Str × Str))) (strict : Bool)
